@@ -112,7 +112,8 @@ for commit, rule, prop, key in [('3b1d4ff', 'PRODUCER', 'C28', 'PRODUCER/osm.Rea
         ('ead3c46', 'TOKEN-FORMAT', 'C03', 'TOKEN-FORMAT/b6.(Tagged).Compile#no-arm-at'),
         ('2e87d95', 'QUOTE-PAIR', 'C20', 'QUOTE-PAIR/api.(*lexer).lexStringLiteral#unquote'),
         ('0ae73b2', 'CONVEX-INSIDE', 'C05', 'CONVEX-INSIDE/b6.CapIntersectsPolygon'),
-        ('94f74a7', 'EMIT-REJECT', 'C36', 'EMIT-REJECT/ingest.NewMutableWorldFromSource#1')]:
+        ('94f74a7', 'EMIT-REJECT', 'C36', 'EMIT-REJECT/ingest.NewMutableWorldFromSource#1'),
+        ('8b6a11c', 'DROP-REVALIDATES', 'C37', 'DROP-REVALIDATES/ingest.(*BasicWorldBuilder).Finish#1')]:
     mutants.append({'id': 'revert-%s-whole-%s' % (commit, rule), 'rule': rule, 'property': prop, 'patch': 'mutants/patches/revert-%s.diff' % commit,
                     'expect_key': key, 'why': 'puts back the defect repaired by %s (%s)' % (commit, subjects.get(commit, '?'))})
 json.dump(mutants, open('/verif/mutants/REVERT.json', 'w'), indent=1)
